@@ -10370,3 +10370,859 @@ func init() {
 		}, func() { checkC01(c, r) })
 	})
 }
+
+// ---------- C11-R13: tables keyed by endpoint identity use the endpoint's URL itself ----------
+func init() { registerExtra("C11", extraC11EndpointKeyedTables) }
+
+func extraC11EndpointKeyedTables(c *Ctx, r *Report) {
+	r.Rule("C11-R13", "in the handlers, a local table that is filled per endpoint under a key taken from Endpoint.URLString (URL → endpoint type for the provider listings, URL → capable for the capability filter) is keyed by that string itself, and looked up with the recorded endpoint URL itself: no function is applied to either key. A 'normalised' key (host:port only, lower-cased, path stripped) is not injective — two endpoints of different providers behind one gateway host collapse into one entry, and a provider's model listing shows the other provider's models", 2)
+	n := 0
+	for _, f := range c.Funcs {
+		if !strings.HasSuffix(fnPkgPath(f), pkgHandlers) || f.Blocks == nil {
+			continue
+		}
+		eachInstr(f, func(in ssa.Instruction) {
+			mk, ok := in.(*ssa.MakeMap)
+			if !ok {
+				return
+			}
+			mt, ok := mk.Type().Underlying().(*types.Map)
+			if !ok {
+				return
+			}
+			if kb, ok := mt.Key().Underlying().(*types.Basic); !ok || kb.Kind() != types.String {
+				return
+			}
+			var keys []struct {
+				v  ssa.Value
+				at token.Pos
+			}
+			fromURL := false
+			refs := mk.Referrers()
+			if refs == nil {
+				return
+			}
+			var collect func(v ssa.Value)
+			seen := map[ssa.Value]bool{}
+			collect = func(v ssa.Value) {
+				if seen[v] {
+					return
+				}
+				seen[v] = true
+				rs := v.Referrers()
+				if rs == nil {
+					return
+				}
+				for _, ref := range *rs {
+					switch x := ref.(type) {
+					case *ssa.MapUpdate:
+						if x.Map == v {
+							keys = append(keys, struct {
+								v  ssa.Value
+								at token.Pos
+							}{x.Key, x.Pos()})
+							if mentionsField(x.Key, pkgDomain, "Endpoint", "URLString", 5) {
+								fromURL = true
+							}
+						}
+					case *ssa.Lookup:
+						if x.X == v {
+							keys = append(keys, struct {
+								v  ssa.Value
+								at token.Pos
+							}{x.Index, x.Pos()})
+						}
+					case *ssa.ChangeType:
+						collect(x)
+					case *ssa.Phi:
+						collect(x)
+					}
+				}
+			}
+			collect(mk)
+			if !fromURL {
+				return
+			}
+			n++
+			key := fmt.Sprintf("%s:endpoint-keyed-table", fname(f))
+			bad := token.NoPos
+			for _, k := range keys {
+				v := stripConv(k.v)
+				plain := false
+				if ld, ok := v.(*ssa.UnOp); ok && ld.Op == token.MUL {
+					if _, isFA := ld.X.(*ssa.FieldAddr); isFA {
+						plain = true
+					}
+				}
+				if _, isF := v.(*ssa.Field); isF {
+					plain = true
+				}
+				if !plain && !bad.IsValid() {
+					bad = k.at
+				}
+			}
+			if bad.IsValid() {
+				r.Bad("C11-R13", key, bad, "the table is filled or looked up under a key computed from the endpoint URL (a function applied to it) instead of the URL itself: endpoints whose URLs the function maps to the same key share one entry, and the last one written decides the type (or capability) of all of them")
+			} else {
+				r.OK("C11-R13", key, in.Pos(), fmt.Sprintf("%d key uses, all plain URL fields", len(keys)))
+			}
+		})
+	}
+	if n == 0 {
+		r.Undecided("C11-R13", "endpoint-keyed-tables", token.NoPos, "no local table keyed by Endpoint.URLString found in the handlers")
+	}
+	addMutants(Mutant{Prop: "C11", Name: "endpoint-type-table-keyed-by-host", File: "internal/app/handlers/handler_provider_common.go", Rule: "C11-R13",
+		Old: "		endpointTypes[ep.URLString] = ep.Type\n", New: "		endpointTypes[hostOnly(ep.URLString)] = ep.Type\n",
+		Edits: []Edit{{"internal/app/handlers/handler_provider_common.go", "			if endpointType, ok := endpointTypes[source.EndpointURL]; ok {", "			if endpointType, ok := endpointTypes[hostOnly(source.EndpointURL)]; ok {"},
+			{"internal/app/handlers/handler_provider_common.go", "// getProviderModels handles the complete flow", "func hostOnly(raw string) string {\n	if u, err := url.Parse(raw); err == nil && u.Host != \"\" {\n		return u.Host\n	}\n	return raw\n}\n\n// getProviderModels handles the complete flow"},
+			{"internal/app/handlers/handler_provider_common.go", "	\"net/http\"\n", "	\"net/http\"\n	\"net/url\"\n"}}})
+}
+
+// ---------- C12-R15: the parsed request is read-only ----------
+func init() { registerExtra("C12", extraC12ParsedRequestReadOnly) }
+
+func extraC12ParsedRequestReadOnly(c *Ctx, r *Report) {
+	r.Rule("C12-R15", "no function of the Anthropic translator writes into the parsed request it is handed: a parameter of type AnthropicRequest (by value too — the copy shares the Messages array and every content-block map), *AnthropicRequest, []AnthropicMessage or AnthropicMessage is only read; there is no store through it (field of an element, element of a slice reached from it) and no map update / delete on a map reached from it. The inspector, the token counter and the converter all see the same value: text shortened 'in the logged copy' is the text that gets translated and sent upstream", 0)
+	isReqType := func(t types.Type) bool {
+		t = deref(t)
+		if isNamed(t, pkgAnthropic, "AnthropicRequest") || isNamed(t, pkgAnthropic, "AnthropicMessage") {
+			return true
+		}
+		if sl, ok := t.Underlying().(*types.Slice); ok {
+			return isNamed(sl.Elem(), pkgAnthropic, "AnthropicMessage")
+		}
+		return false
+	}
+	n := 0
+	for _, f := range c.Funcs {
+		if !strings.HasSuffix(fnPkgPath(f), pkgAnthropic) || f.Blocks == nil {
+			continue
+		}
+		top := topParent(f)
+		var roots []ssa.Value
+		for _, p := range top.Params {
+			if isReqType(p.Type()) {
+				roots = append(roots, p)
+			}
+		}
+		if len(roots) == 0 {
+			continue
+		}
+		// values reached from a request parameter (in f, which may be a closure of top capturing it)
+		reach := map[ssa.Value]bool{}
+		for _, p := range roots {
+			reach[p] = true
+		}
+		if f != top {
+			for _, fv := range f.FreeVars {
+				if isReqType(fv.Type()) || isReqType(deref(fv.Type())) {
+					reach[fv] = true
+				}
+			}
+		}
+		for changed := true; changed; {
+			changed = false
+			eachInstr(f, func(in ssa.Instruction) {
+				v, ok := in.(ssa.Value)
+				if !ok || reach[v] {
+					return
+				}
+				from := false
+				switch x := in.(type) {
+				case *ssa.FieldAddr:
+					from = reach[x.X]
+				case *ssa.Field:
+					from = reach[x.X]
+				case *ssa.IndexAddr:
+					from = reach[x.X]
+				case *ssa.Index:
+					from = reach[x.X]
+				case *ssa.UnOp:
+					from = reach[x.X]
+				case *ssa.TypeAssert:
+					from = reach[x.X]
+				case *ssa.Extract:
+					from = reach[x.Tuple]
+				case *ssa.Lookup:
+					from = reach[x.X]
+				case *ssa.Range:
+					from = reach[x.X]
+				case *ssa.Next:
+					from = reach[x.Iter]
+				case *ssa.Slice:
+					from = reach[x.X]
+				case *ssa.ChangeType:
+					from = reach[x.X]
+				case *ssa.Phi:
+					for _, e := range x.Edges {
+						if reach[e] {
+							from = true
+						}
+					}
+				case *ssa.Alloc:
+					// a by-value parameter is spilled into a local cell: `req` stored into it
+					for _, ref := range *x.Referrers() {
+						if st, ok := ref.(*ssa.Store); ok && st.Addr == ssa.Value(x) && reach[st.Val] {
+							from = true
+						}
+					}
+				}
+				if from {
+					reach[v] = true
+					changed = true
+				}
+			})
+		}
+		eachInstr(f, func(in ssa.Instruction) {
+			bad := ""
+			switch x := in.(type) {
+			case *ssa.Store:
+				if reach[x.Addr] {
+					if al, isAl := x.Addr.(*ssa.Alloc); isAl {
+						_ = al
+						return // initialising the spill cell of a by-value parameter
+					}
+					// a store into the function's own copy of a by-value struct's top-level field is local; anything behind
+					// an element or a pointer is shared
+					if fa, ok := x.Addr.(*ssa.FieldAddr); ok {
+						if _, local := fa.X.(*ssa.Alloc); local {
+							return
+						}
+					}
+					bad = "stores through the parsed request"
+				}
+			case *ssa.MapUpdate:
+				if reach[x.Map] {
+					bad = "updates a content map of the parsed request"
+				}
+			case *ssa.Call:
+				if b, ok := x.Call.Value.(*ssa.Builtin); ok && (b.Name() == "delete" || b.Name() == "clear") && len(x.Call.Args) > 0 && reach[x.Call.Args[0]] {
+					bad = "deletes from a content map of the parsed request"
+				}
+			}
+			if bad != "" {
+				n++
+				r.Bad("C12-R15", fname(f)+":writes-parsed-request", in.Pos(), "the function "+bad+": the value is shared with the conversion that builds the upstream request, so what was meant for a log (or any other side use) changes the text, tool results or parameters the backend receives")
+			}
+		})
+	}
+	if n == 0 {
+		r.Triv("C12-R15", "writes-into-the-parsed-request", token.NoPos, "no translator function writes into a request it was handed")
+	}
+	addMutants(Mutant{Prop: "C12", Name: "request-text-elided-in-place-for-the-log", File: "internal/adapter/translator/anthropic/request.go", Rule: "C12-R15",
+		Old: "// convert messages + inject system prompt if present\n", New: "func shortenForLog(req AnthropicRequest) AnthropicRequest {\n	for i := range req.Messages {\n		if text, ok := req.Messages[i].Content.(string); ok && len(text) > 4096 {\n			req.Messages[i].Content = text[:4096]\n		}\n	}\n	return req\n}\n\nvar _ = shortenForLog\n\n// convert messages + inject system prompt if present\n"})
+}
+
+// ---------- C16-R14: a transport dials the address it is asked to dial ----------
+func init() { registerExtra("C16", extraC16DialGivenAddr) }
+
+func extraC16DialGivenAddr(c *Ctx, r *Report) {
+	r.Rule("C16-R14", "every dial function the repository installs on an http.Transport (DialContext / Dial / DialTLSContext) hands its own (network, addr) parameters to the dialer it uses: net/http computes addr from the upstream URL's host and port, so a dial function that substitutes another address — a remembered one, a resolved one keyed by host name alone — connects a request for endpoint B's port to endpoint A while logs and statistics keep showing B's URL", 2)
+	n := 0
+	for _, f := range c.Funcs {
+		if !c.inRepo(f) || f.Blocks == nil {
+			continue
+		}
+		eachInstr(f, func(in ssa.Instruction) {
+			st, ok := in.(*ssa.Store)
+			if !ok {
+				return
+			}
+			which := ""
+			for _, fld := range []string{"DialContext", "Dial", "DialTLSContext", "DialTLS"} {
+				if isField(st.Addr, "net/http", "Transport", fld) {
+					which = fld
+				}
+			}
+			if which == "" {
+				return
+			}
+			var g *ssa.Function
+			switch x := st.Val.(type) {
+			case *ssa.MakeClosure:
+				g, _ = x.Fn.(*ssa.Function)
+			case *ssa.Function:
+				g = x
+			}
+			if g == nil || g.Blocks == nil {
+				return // a method value of net.Dialer itself: dials what it is given
+			}
+			var netP, addrP *ssa.Parameter
+			var strs []*ssa.Parameter
+			for _, p := range g.Params {
+				if b, ok := p.Type().Underlying().(*types.Basic); ok && b.Kind() == types.String {
+					strs = append(strs, p)
+				}
+			}
+			if len(strs) >= 2 {
+				netP, addrP = strs[0], strs[1]
+			}
+			n++
+			key := fname(g) + ":dials-the-given-address"
+			var bad ssa.Instruction
+			dials := 0
+			eachInstrDeep(g, func(_ *ssa.Function, x ssa.Instruction) {
+				cc := getCall(x)
+				if cc == nil {
+					return
+				}
+				ci := describeCall(cc)
+				isDial := ci.Pkg == "net" && (strings.HasPrefix(ci.Name, "Dial")) || (ci.Pkg == "crypto/tls" && strings.HasPrefix(ci.Name, "Dial"))
+				if !isDial {
+					return
+				}
+				var sargs []ssa.Value
+				for _, a := range cc.Args {
+					if b, ok := a.Type().Underlying().(*types.Basic); ok && b.Kind() == types.String {
+						sargs = append(sargs, a)
+					}
+				}
+				if len(sargs) < 2 {
+					return
+				}
+				dials++
+				resolve := func(v ssa.Value) ssa.Value {
+					// inside a nested closure the parameter arrives as a free variable load
+					if u, ok := v.(*ssa.UnOp); ok {
+						if fv, ok := u.X.(*ssa.FreeVar); ok {
+							_ = fv
+							return v
+						}
+					}
+					return v
+				}
+				if resolve(sargs[0]) != ssa.Value(netP) || resolve(sargs[1]) != ssa.Value(addrP) {
+					if bad == nil {
+						bad = x
+					}
+				}
+			})
+			switch {
+			case bad != nil:
+				r.Bad("C16-R14", key, bad.Pos(), "the transport's "+which+" dials an address that is not the one it was given: the connection can go to another host or port than the endpoint's URL says")
+			case dials > 0:
+				r.OK("C16-R14", key, in.Pos(), fmt.Sprintf("%d dial call(s), all with the function's own network and address", dials))
+			default:
+				r.Undecided("C16-R14", key, in.Pos(), "no dial call found in the installed dial function")
+			}
+		})
+	}
+	if n == 0 {
+		r.Triv("C16-R14", "transport-dial-functions", token.NoPos, "no custom dial function is installed on a transport")
+	}
+	addMutants(Mutant{Prop: "C16", Name: "transport-dials-remembered-address", File: "internal/adapter/proxy/sherpa/service.go", Rule: "C16-R14",
+		Old: "			conn, err := dialer.DialContext(ctx, network, addr)\n", New: "			if known, ok := lastDialled.Load(network); ok {\n				addr = known.(string)\n			}\n			conn, err := dialer.DialContext(ctx, network, addr)\n			lastDialled.Store(network, addr)\n",
+		Edits: []Edit{{"internal/adapter/proxy/sherpa/service.go", "// NewService", "var lastDialled sync.Map\n\n// NewService"}, {"internal/adapter/proxy/sherpa/service.go", "	\"net/http\"\n", "	\"net/http\"\n	\"sync\"\n"}}})
+}
+
+// ---------- C16-R15 / C01-R19: the server hands the handlers the request line as it came ----------
+func init() {
+	registerExtra("C16", func(c *Ctx, r *Report) { extraNoRequestRewritingWrapper(c, r, "C16-R15") })
+	registerExtra("C01", func(c *Ctx, r *Report) { extraNoRequestRewritingWrapper(c, r, "C01-R19") })
+}
+
+func extraNoRequestRewritingWrapper(c *Ctx, r *Report, rule string) {
+	r.Rule(rule, "the repository does not wrap its handlers in net/http's request-rewriting adapters: http.AllowQuerySemicolons (hands the inner handler a copy whose RawQuery has every ';' replaced by '&') and http.StripPrefix (rewrites Path and RawPath). The URL builder forwards r.URL.RawQuery as it finds it, so a wrapper around the whole mux changes the query string every backend receives (a=1;b=2 → a=1&b=2; filter=name;size → two parameters)", 0)
+	n := 0
+	for _, f := range c.Funcs {
+		if !c.inRepo(f) {
+			continue
+		}
+		eachInstr(f, func(in ssa.Instruction) {
+			cc := getCall(in)
+			if cc == nil || cc.IsInvoke() {
+				return
+			}
+			ci := describeCall(cc)
+			if ci.Pkg == "net/http" && ci.Recv == "" && (ci.Name == "AllowQuerySemicolons" || ci.Name == "StripPrefix") {
+				n++
+				r.Bad(rule, fname(f)+":"+ci.Name, in.Pos(), "handlers are wrapped in http."+ci.Name+", which rewrites the request URL before the proxy handlers see it: the query string (or path) forwarded to the backend is no longer the client's")
+			}
+		})
+	}
+	if n == 0 {
+		r.Triv(rule, "request-rewriting-wrappers", token.NoPos, "no handler is wrapped in AllowQuerySemicolons / StripPrefix")
+	}
+	addMutants(Mutant{Prop: rule[:3], Name: "mux-wrapped-in-AllowQuerySemicolons", File: "internal/app/services/http.go", Rule: rule,
+		Old: "		Handler:      mux,\n", New: "		Handler:      http.AllowQuerySemicolons(mux),\n"})
+}
+
+// ---------- C17-R13: admission is decided on the reservation's own delay ----------
+func init() { registerExtra("C17", extraC17DelayUnrounded) }
+
+func extraC17DelayUnrounded(c *Ctx, r *Report) {
+	r.Rule("C17-R13", "in the rate limiter, the test that decides between admitting and refusing compares (*rate.Reservation).Delay() itself with zero: the delay is not truncated, rounded, reduced by a tolerance or divided before the comparison. A reservation with a positive delay that is admitted keeps its token borrowed from the future, so 'up to one second of wait is fine' lets every client run rate×1s tokens into debt — admitted requests exceed burst + rate×t", 2)
+	n := 0
+	for _, f := range c.Funcs {
+		if !strings.Contains(fnPkgPath(f), "/adapter/security") || f.Blocks == nil {
+			continue
+		}
+		eachInstr(f, func(in ssa.Instruction) {
+			call, ok := in.(*ssa.Call)
+			if !ok {
+				return
+			}
+			ci := describeCall(&call.Call)
+			if ci.Name != "Delay" && ci.Name != "DelayFrom" || !strings.HasSuffix(ci.Pkg, "x/time/rate") {
+				return
+			}
+			// every decision that depends on this delay
+			type use struct {
+				v       ssa.Value
+				altered bool
+			}
+			work := []use{{call, false}}
+			seen := map[ssa.Value]bool{}
+			for len(work) > 0 {
+				u := work[len(work)-1]
+				work = work[:len(work)-1]
+				if seen[u.v] || u.v.Referrers() == nil {
+					continue
+				}
+				seen[u.v] = true
+				for _, ref := range *u.v.Referrers() {
+					switch x := ref.(type) {
+					case *ssa.BinOp:
+						switch x.Op {
+						case token.GTR, token.GEQ, token.LSS, token.LEQ, token.EQL, token.NEQ:
+							n++
+							key := fname(f) + ":admission-on-unrounded-delay"
+							other := x.Y
+							if x.Y == u.v {
+								other = x.X
+							}
+							k, isK := constInt(other)
+							if u.altered || !isK || k != 0 {
+								r.Bad("C17-R13", key, x.Pos(), "the admission test does not compare the reservation's delay itself with zero (it was truncated / rounded / offset first, or is compared with a tolerance): requests that would have to wait are admitted with their token borrowed, so the client exceeds burst + rate×t")
+							} else {
+								r.OK("C17-R13", key, x.Pos(), "Delay() compared with zero as is")
+							}
+						case token.SUB, token.QUO, token.REM, token.ADD, token.MUL:
+							if isDurationLike(x.Type()) {
+								work = append(work, use{x, true})
+							}
+						}
+					case *ssa.Call:
+						cj := describeCall(&x.Call)
+						if cj.Pkg == "time" && cj.Recv == "Duration" && (cj.Name == "Truncate" || cj.Name == "Round") {
+							work = append(work, use{x, true})
+						}
+						if b, ok := x.Call.Value.(*ssa.Builtin); ok && (b.Name() == "max" || b.Name() == "min") {
+							work = append(work, use{x, true})
+						}
+					case *ssa.Convert:
+						work = append(work, use{x, u.altered})
+					case *ssa.ChangeType:
+						work = append(work, use{x, u.altered})
+					case *ssa.Phi:
+						work = append(work, use{x, u.altered})
+					}
+				}
+			}
+		})
+	}
+	if n == 0 {
+		r.Undecided("C17-R13", "delay-comparisons", token.NoPos, "no comparison of a reservation's Delay() found in the security package")
+	}
+	addMutants(Mutant{Prop: "C17", Name: "sub-second-waits-admitted", File: "internal/adapter/security/request_rate_limit.go", Rule: "C17-R13",
+		Old: "	delay := reservation.Delay()\n	if delay > 0 {\n		reservation.Cancel()\n\n", New: "	delay := reservation.Delay()\n	if delay > 250*time.Millisecond {\n		reservation.Cancel()\n\n"})
+}
+
+func isDurationLike(t types.Type) bool {
+	b, ok := t.Underlying().(*types.Basic)
+	return ok && b.Info()&types.IsInteger != 0
+}
+
+// ---------- C17-R14: a proxy route is always registered as one ----------
+func init() { registerExtra("C17", extraC17ProxyRouteFlag) }
+
+func extraC17ProxyRouteFlag(c *Ctx, r *Report) {
+	r.Rule("C17-R14", "every registration RegisterProxyRoute performs marks the route as a proxy route: each call it makes into the route table (the function that stores RouteInfo) passes the constant true for the IsProxy argument, on every path — the security chain (rate limit, size check, MaxBytesReader) is mounted only on routes with that flag, so a branch that registers through the plain helper (IsProxy false) leaves those routes unlimited", 1)
+	f := c.Fn("internal/router", "(*RouteRegistry).RegisterProxyRoute")
+	if f == nil {
+		r.Unresolved("C17-R14", "router.(*RouteRegistry).RegisterProxyRoute")
+		return
+	}
+	// the table writer: the function of the package that stores a RouteInfo with IsProxy from a bool parameter
+	key := fname(f) + ":registers-with-IsProxy-true"
+	n, bad := 0, token.NoPos
+	var check func(g *ssa.Function, d int, viaPlain bool)
+	check = func(g *ssa.Function, d int, _ bool) {
+		if d == 0 {
+			return
+		}
+		eachInstr(g, func(in ssa.Instruction) {
+			cc := getCall(in)
+			if cc == nil {
+				return
+			}
+			sc := cc.StaticCallee()
+			if sc == nil || sc.Pkg != f.Pkg || sc.Blocks == nil || sc.Signature.Recv() == nil {
+				return
+			}
+			// does sc take a bool (the flag)?
+			flagIdx := -1
+			for i, p := range sc.Params {
+				if b, ok := p.Type().Underlying().(*types.Basic); ok && b.Kind() == types.Bool {
+					flagIdx = i
+				}
+			}
+			storesInfo := false
+			eachInstr(sc, func(x ssa.Instruction) {
+				if st, ok := x.(*ssa.Store); ok && isField(st.Addr, "internal/router", "RouteInfo", "IsProxy") {
+					storesInfo = true
+				}
+			})
+			switch {
+			case flagIdx >= 0 && storesInfo:
+				n++
+				if k, ok := cc.Args[flagIdx].(*ssa.Const); !ok || k.Value == nil || !constant.BoolVal(k.Value) {
+					bad = in.Pos()
+				}
+			case strings.HasPrefix(sc.Name(), "Register") || strings.HasPrefix(sc.Name(), "register"):
+				// a registration helper without the flag parameter: whatever it passes on is not `true` from here
+				inner := false
+				eachInstr(sc, func(x ssa.Instruction) {
+					c2 := getCall(x)
+					if c2 == nil {
+						return
+					}
+					if s2 := c2.StaticCallee(); s2 != nil && s2.Pkg == f.Pkg {
+						for i, p := range s2.Params {
+							if b, ok := p.Type().Underlying().(*types.Basic); ok && b.Kind() == types.Bool && i < len(c2.Args) {
+								if k, ok := c2.Args[i].(*ssa.Const); ok && k.Value != nil && !constant.BoolVal(k.Value) {
+									inner = true
+								}
+							}
+						}
+					}
+				})
+				if inner {
+					n++
+					bad = in.Pos()
+				}
+			}
+		})
+	}
+	check(f, 2, false)
+	switch {
+	case bad.IsValid():
+		r.Bad("C17-R14", key, bad, "RegisterProxyRoute can register a route without the proxy flag (through the plain registration helper, which passes IsProxy=false): the rate limiter, the size check and the body limiter are not mounted on it")
+	case n > 0:
+		r.OK("C17-R14", key, f.Pos(), "every registration passes IsProxy=true")
+	default:
+		r.Undecided("C17-R14", key, f.Pos(), "no call into the route table found")
+	}
+	addMutants(Mutant{Prop: "C17", Name: "methodless-proxy-routes-registered-plain", File: "internal/router/registry.go", Rule: "C17-R14",
+		Old: "	r.registerWithMethod(route, wrappedHandler, description, method, true)\n", New: "	if method == \"\" {\n		r.RegisterWithMethod(route, wrappedHandler, description, \"ANY\")\n		return\n	}\n	r.registerWithMethod(route, wrappedHandler, description, method, true)\n"})
+}
+
+// ---------- C18-R17: a buffering response writer flushes its buffer when asked to ----------
+func init() { registerExtra("C18", extraC18BufferedWriterFlushes) }
+
+func extraC18BufferedWriterFlushes(c *Ctx, r *Report) {
+	r.Rule("C18-R17", "every repo type that implements http.ResponseWriter and whose Write goes into a *bufio.Writer it holds has a Flush / FlushError method that flushes that bufio.Writer: the engines flush after every relayed chunk, and a writer that coalesces bytes behind a Flush that does nothing delivers a token stream in 4 KiB bursts (or at the end) instead of chunk by chunk", 0)
+	n := 0
+	for _, t := range c.Prog.RuntimeTypes() {
+		_ = t
+	}
+	seen := map[*types.Named]bool{}
+	for _, f := range c.Funcs {
+		if !c.inRepo(f) || f.Name() != "Write" || f.Signature.Recv() == nil || f.Blocks == nil {
+			continue
+		}
+		nt, ok := deref(f.Signature.Recv().Type()).(*types.Named)
+		if !ok || seen[nt] {
+			continue
+		}
+		ms := c.Prog.MethodSets.MethodSet(types.NewPointer(nt))
+		if ms.Lookup(nt.Obj().Pkg(), "WriteHeader") == nil || ms.Lookup(nt.Obj().Pkg(), "Header") == nil {
+			continue
+		}
+		// does Write write into a bufio.Writer field of the receiver?
+		var bufField *types.Var
+		eachInstr(f, func(in ssa.Instruction) {
+			cc := getCall(in)
+			if cc == nil || cc.IsInvoke() || len(cc.Args) == 0 {
+				return
+			}
+			ci := describeCall(cc)
+			if ci.Pkg == "bufio" && ci.Recv == "Writer" && strings.HasPrefix(ci.Name, "Write") {
+				if ld, ok := cc.Args[0].(*ssa.UnOp); ok {
+					if fa, ok := ld.X.(*ssa.FieldAddr); ok {
+						_, bufField, _ = fieldOf(fa)
+					}
+				}
+			}
+		})
+		if bufField == nil {
+			continue
+		}
+		seen[nt] = true
+		n++
+		key := strings.TrimPrefix(nt.Obj().Pkg().Path(), modPath+"/") + "." + nt.Obj().Name() + ":Flush-flushes-the-buffer"
+		flushes := false
+		for _, name := range []string{"Flush", "FlushError"} {
+			sel := ms.Lookup(nt.Obj().Pkg(), name)
+			if sel == nil {
+				continue
+			}
+			fl := c.Prog.MethodValue(sel)
+			if fl == nil || fl.Blocks == nil {
+				continue
+			}
+			eachInstr(fl, func(in ssa.Instruction) {
+				cc := getCall(in)
+				if cc == nil || cc.IsInvoke() || len(cc.Args) == 0 {
+					return
+				}
+				if ci := describeCall(cc); ci.Pkg == "bufio" && ci.Recv == "Writer" && ci.Name == "Flush" {
+					if ld, ok := cc.Args[0].(*ssa.UnOp); ok {
+						if fa, ok := ld.X.(*ssa.FieldAddr); ok {
+							if _, fld, _ := fieldOf(fa); fld == bufField {
+								flushes = true
+							}
+						}
+					}
+				}
+			})
+		}
+		if flushes {
+			r.OK("C18-R17", key, f.Pos(), "Flush empties the bufio.Writer that Write fills")
+		} else {
+			r.Bad("C18-R17", key, f.Pos(), "Write collects the body in a bufio.Writer but the type's Flush does not flush it: the per-chunk flush of the proxy engines has no effect, and a streamed response reaches the client (or the stream translator) in buffer-sized bursts")
+		}
+	}
+	if n == 0 {
+		r.Triv("C18-R17", "buffering-response-writers", token.NoPos, "no ResponseWriter of the repository writes through a bufio.Writer")
+	}
+	addMutants(Mutant{Prop: "C18", Name: "stream-recorder-coalesces-behind-noop-flush", File: "internal/app/handlers/handler_translation.go", Rule: "C18-R17",
+		Old: "	writer       io.Writer\n	headers      http.Header\n	headersReady chan struct{}", New: "	writer       *bufio.Writer\n	headers      http.Header\n	headersReady chan struct{}",
+		Edits: []Edit{{"internal/app/handlers/handler_translation.go", "		writer:       w,\n		headersReady: make(chan struct{}),", "		writer:       bufio.NewWriterSize(w, 4096),\n		headersReady: make(chan struct{}),"},
+			{"internal/app/handlers/handler_translation.go", "import (\n	\"bytes\"\n", "import (\n	\"bufio\"\n	\"bytes\"\n"}}})
+}
+
+// ---------- C18-R18: once the stall timer has fired, nothing blocks before the attempt gives up ----------
+func init() { registerExtra("C18", extraC18NoBlockAfterStall) }
+
+func extraC18NoBlockAfterStall(c *Ctx, r *Report) {
+	r.Rule("C18-R18", "in the proxy engines, on the branch of a blocking select that is taken because the read-timeout timer fired, every path to the function's return is free of further blocking channel operations (a receive, or a blocking select): the body's Close — the only thing that unblocks the reader goroutine — is deferred by the caller and runs after this function returns, so 'wait for the in-flight Read to come back first' waits for ever on a backend that never resumes", 1)
+	n := 0
+	for _, f := range c.Funcs {
+		if !strings.Contains(fnPkgPath(f), "/adapter/proxy/") || f.Blocks == nil {
+			continue
+		}
+		eachInstr(f, func(in ssa.Instruction) {
+			sel, ok := in.(*ssa.Select)
+			if !ok || !sel.Blocking {
+				return
+			}
+			for k, st := range sel.States {
+				if st.Dir != types.RecvOnly || timerChanOf(st.Chan) == nil {
+					continue
+				}
+				// the block entered when case k was chosen: If(Extract(sel,0) == k)
+				var start *ssa.BasicBlock
+				for _, ref := range *sel.Referrers() {
+					ex, ok := ref.(*ssa.Extract)
+					if !ok || ex.Index != 0 {
+						continue
+					}
+					for _, r2 := range *ex.Referrers() {
+						bo, ok := r2.(*ssa.BinOp)
+						if !ok || bo.Op != token.EQL {
+							continue
+						}
+						if kk, ok := constInt(bo.Y); !ok || int(kk) != k {
+							continue
+						}
+						for _, r3 := range *bo.Referrers() {
+							if ifi, ok := r3.(*ssa.If); ok {
+								start = ifi.Block().Succs[0]
+							}
+						}
+					}
+				}
+				if start == nil {
+					continue
+				}
+				n++
+				key := fname(f) + ":no-blocking-after-stall"
+				var bad ssa.Instruction
+				seenB := map[*ssa.BasicBlock]bool{}
+				work := []*ssa.BasicBlock{start}
+				for len(work) > 0 && bad == nil {
+					b := work[len(work)-1]
+					work = work[:len(work)-1]
+					if seenB[b] || b == sel.Block() {
+						continue
+					}
+					seenB[b] = true
+					for _, x := range b.Instrs {
+						switch y := x.(type) {
+						case *ssa.Select:
+							if y.Blocking {
+								bad = x
+							}
+						case *ssa.UnOp:
+							if y.Op == token.ARROW {
+								bad = x
+							}
+						}
+						if bad != nil {
+							break
+						}
+					}
+					work = append(work, b.Succs...)
+				}
+				if bad != nil {
+					r.Bad("C18-R18", key, bad.Pos(), "after the read-timeout timer fired the function blocks on another channel before returning: the stalled Read it waits for only returns once the body is closed, which happens after this function returns — a backend that stops sending for good is never cut off")
+				} else {
+					r.OK("C18-R18", key, sel.Pos(), "the stall branch returns without blocking again")
+				}
+			}
+		})
+	}
+	if n == 0 {
+		r.Undecided("C18-R18", "stall-branches", token.NoPos, "no blocking select on a read-timeout timer found in the proxy engines")
+	}
+	addMutants(Mutant{Prop: "C18", Name: "stall-branch-joins-the-reader", File: "internal/adapter/proxy/sherpa/service_streaming.go", Rule: "C18-R18",
+		Old: "		return nil, fmt.Errorf(\"AI backend stopped responding - no data received for %.1fs (backend may be overloaded)\", readTimeout.Seconds())\n", New: "		<-readCh\n		return nil, fmt.Errorf(\"AI backend stopped responding - no data received for %.1fs (backend may be overloaded)\", readTimeout.Seconds())\n"})
+}
+
+// ---------- C19-R17: a delivered response is recorded before optional post-processing runs ----------
+func init() { registerExtra("C19", extraC19RecordBeforeExtract) }
+
+func extraC19RecordBeforeExtract(c *Ctx, r *Report) {
+	r.Rule("C19-R17", "in the per-attempt functions the call into the pluggable metrics extractor (ports.MetricsExtractor, reached through core.ExtractProviderMetrics) is dominated by the attempt's RecordSuccess: by then the client holds the complete response, and the extractor parses backend-produced bytes with third-party code — if it panics (or blocks) before the outcome is recorded, a response the client received in full is counted as neither success nor failure", 2)
+	callsExtractor := map[*ssa.Function]bool{}
+	var reaches func(g *ssa.Function, d int) bool
+	reaches = func(g *ssa.Function, d int) bool {
+		if g == nil || g.Blocks == nil || d == 0 {
+			return false
+		}
+		if v, ok := callsExtractor[g]; ok {
+			return v
+		}
+		callsExtractor[g] = false
+		found := false
+		eachInstr(g, func(in ssa.Instruction) {
+			cc := getCall(in)
+			if cc == nil || found {
+				return
+			}
+			if cc.IsInvoke() && isNamed(cc.Value.Type(), "internal/core/ports", "MetricsExtractor") {
+				found = true
+				return
+			}
+			if sc := cc.StaticCallee(); sc != nil && c.inRepo(sc) && reaches(sc, d-1) {
+				found = true
+			}
+		})
+		callsExtractor[g] = found
+		return found
+	}
+	n := 0
+	for _, af := range attemptFuncs(c) {
+		var rs ssa.Instruction
+		var exs []ssa.Instruction
+		eachInstr(af, func(in ssa.Instruction) {
+			cc := getCall(in)
+			if cc == nil {
+				return
+			}
+			if _, isDefer := in.(*ssa.Defer); isDefer {
+				return
+			}
+			sc := cc.StaticCallee()
+			if sc == nil {
+				return
+			}
+			if sc.Name() == "RecordSuccess" && strings.Contains(fnPkgPath(sc), "/adapter/proxy") && sc.Signature.Params().Len() >= 2 {
+				rs = in
+			}
+			if c.inRepo(sc) && reaches(sc, 3) {
+				exs = append(exs, in)
+			}
+		})
+		for _, ex := range exs {
+			n++
+			key := fname(af) + ":recorded-before-metrics-extraction"
+			if rs != nil && instrDominates(rs, ex) {
+				r.OK("C19-R17", key, ex.Pos(), "RecordSuccess dominates the extractor call")
+			} else {
+				r.Bad("C19-R17", key, ex.Pos(), "the metrics extractor runs before the attempt's outcome is recorded: a panic in it unwinds past RecordSuccess, so a response the client received completely is recorded nowhere — recorded successes fall short of delivered responses")
+			}
+		}
+	}
+	if n == 0 {
+		r.Triv("C19-R17", "extractor-calls", token.NoPos, "no per-attempt function calls the metrics extractor")
+	}
+	addMutants(Mutant{Prop: "C19", Name: "metrics-extracted-before-recording", File: "internal/adapter/proxy/sherpa/service_retry.go", Rule: "C19-R17",
+		Old: "	s.RecordSuccess(endpoint, duration.Milliseconds(), int64(bytesWritten))\n", New: "	core.ExtractProviderMetrics(ctx, s.MetricsExtractor, lastChunk, endpoint, stats, rlog, \"Sherpa\")\n	s.RecordSuccess(endpoint, duration.Milliseconds(), int64(bytesWritten))\n"})
+}
+
+// ---------- C13-R15: the stream translator handles the backend's lines one at a time ----------
+func init() { registerExtra("C13", extraC13LineByLine) }
+
+func extraC13LineByLine(c *Ctx, r *Report) {
+	r.Rule("C13-R15", "the per-line handler of the stream translator is given each scanned line as the scanner returned it (bufio.Scanner.Text / Bytes of the current iteration) — not a payload assembled from several lines: one malformed `data:` line can then only lose itself. Joining adjacent data lines into one event makes a malformed line swallow the valid chunk next to it (a text delta, an argument fragment, the finish/usage chunk), and a backend that separates chunks with a single newline yields an empty message", 1)
+	h := c.Fn(pkgAnthropic, "(*Translator).processStreamLine")
+	if h == nil {
+		r.Unresolved("C13-R15", "(*Translator).processStreamLine")
+		return
+	}
+	n := 0
+	for _, f := range c.Funcs {
+		if !strings.HasSuffix(fnPkgPath(f), pkgAnthropic) || f.Blocks == nil {
+			continue
+		}
+		eachInstr(f, func(in ssa.Instruction) {
+			cc := getCall(in)
+			if cc == nil || cc.StaticCallee() != h {
+				return
+			}
+			var arg ssa.Value
+			for _, a := range cc.Args {
+				if b, ok := a.Type().Underlying().(*types.Basic); ok && b.Kind() == types.String {
+					arg = a
+					break
+				}
+			}
+			if arg == nil {
+				return
+			}
+			n++
+			key := fname(topParent(f)) + ":line-handed-over-as-scanned"
+			v := stripConv(arg)
+			ok := false
+			if call, isCall := v.(*ssa.Call); isCall {
+				ci := describeCall(&call.Call)
+				ok = ci.Pkg == "bufio" && ci.Recv == "Scanner" && (ci.Name == "Text" || ci.Name == "Bytes")
+			}
+			if ok {
+				r.OK("C13-R15", key, in.Pos(), "the handler receives scanner.Text() of the current line")
+			} else {
+				r.Bad("C13-R15", key, in.Pos(), "the per-line handler is called with a string that is not the scanned line itself (assembled, concatenated or buffered across lines): a malformed line is no longer skipped on its own but takes neighbouring valid chunks with it")
+			}
+		})
+	}
+	if n == 0 {
+		r.Undecided("C13-R15", "line-handler-calls", token.NoPos, "no call of the per-line handler found")
+	}
+	addMutants(Mutant{Prop: "C13", Name: "lines-joined-before-handling", File: "internal/adapter/translator/anthropic/streaming.go", Rule: "C13-R15",
+		Old: "		line := scanner.Text()\n		if err := t.processStreamLine(line, state, w, rc); err != nil {", New: "		pending += scanner.Text()\n		if !strings.HasSuffix(pending, \"}\") && pending != \"\" && pending != \"data: [DONE]\" {\n			continue\n		}\n		line := pending\n		pending = \"\"\n		if err := t.processStreamLine(line, state, w, rc); err != nil {",
+		Edits: []Edit{{"internal/adapter/translator/anthropic/streaming.go", "	for scanner.Scan() {\n", "	pending := \"\"\n	for scanner.Scan() {\n"}}})
+}
+
+func init() {
+	// C14: the passthrough candidates are the native subset of the healthy list (a filter that skips elements lets a
+	// non-native endpoint receive the untranslated body): the dispatch list's provenance rule under its C14 name
+	registerExtra("C14", func(c *Ctx, r *Report) {
+		r.WithAlias(map[string]string{"C03-R1": "C14-R14"}, func() { checkC03(c, r) })
+	})
+	// C19: an attempt whose pipe is never released never ends — its gauge decrement and its outcome record never run
+	registerExtra("C19", func(c *Ctx, r *Report) {
+		r.WithAlias(map[string]string{"C18-R6": "C19-R18"}, func() { checkC18(c, r) })
+	})
+}
